@@ -192,9 +192,11 @@ class Builder:
         if kind == 'tuplesub':
             return un.TupleSub(c)
         if kind == 'odictsub':
-            return un.ODictSub((f'k{i}', v) for i, v in enumerate(c))
+            keys = [dec_key(k) for k in params['keys']] if 'keys' in params else [f'k{i}' for i in range(len(c))]
+            return un.ODictSub(zip(keys, c))
         if kind == 'ddictsub':
-            return un.DDictSub(None, ((f'k{i}', v) for i, v in enumerate(c)))
+            keys = [dec_key(k) for k in params['keys']] if 'keys' in params else [f'k{i}' for i in range(len(c))]
+            return un.DDictSub(FACTORIES[params.get('factory', 'none')], zip(keys, c))
         raise ValueError(f'unknown kind {kind!r}')
 
 
@@ -604,6 +606,12 @@ def local_edits(d, path):  # noqa: C901
         put('dc:meta-change', [kind, {'m': 'changed'}, ch])
     if kind == 'none':
         put('none->tuple0', ['tuple', None, []])
+    # the same container as an instance of an (unregistered) SUBCLASS: same keys / length / maxlen, but a leaf
+    sub = {'dict': 'dictsub', 'odict': 'odictsub', 'ddict': 'ddictsub', 'deque': 'dequesub', 'list': 'listsub',
+           'tuple': 'tuplesub'}.get(kind)
+    if sub:
+        p4 = {k: v for k, v in params.items() if k != 'hist'}
+        put(f'kind:{kind}->subclass-instance', [sub, p4 or None, ch])
     put('node->leaf', 'L')
     return out
 
